@@ -375,6 +375,45 @@ def w_value(job):
 
 
 
+def w_both(job):
+    """The same operand and operator sequence with ALL its groupings in ONE statement: `int3(a o1 b o2 c, (a o1 b) o2 c, a o1 (b o2 c))`.
+    Each component has the value of its own grouping (a lowering that recognises `equal' subexpressions by their flat spelling
+    would hand one grouping's value to the other)."""
+    lo, hi = job
+    fails, evals, nontriv = [], 0, 0
+    for idx in range(lo, hi):
+        ops = _ops_at(2, idx)
+        o1, o2 = ops
+        texts = [f"a {o1} b {o2} c", f"(a {o1} b) {o2} c", f"a {o1} (b {o2} c)"]
+        for order in ((0, 1, 2), (2, 1, 0), (1, 2, 0)):
+            ts = [texts[k] for k in order]
+            trees = [ref_parse(t) for t in ts]
+            src = "export function f(int a, int b, int c, int d) -> int3 { return int3(" + ", ".join(ts) + "); }"
+            res = compile_src(src)
+            evals += 1
+            if not res.ok:
+                fails.append({"key": _key("value-all-groupings", ops, "not-compiled:" + res.cls()), "part": "value", "source": src, "expected": "compiles", "observed": res.cls()})
+                continue
+            prog = link(res.module)
+            nontriv += 1
+            for vals in itertools.product(GRID, repeat=3):
+                env = dict(zip(NAMES, vals))
+                try:
+                    want = [_eval_tree(t, env) for t in trees]
+                except Unspec:
+                    continue
+                args = {k: env.get(k, 0) for k in ("a", "b", "c", "d")}
+                try:
+                    with pool.time_limit(2.0):
+                        got = new_vm(prog).Invoke("f", **args)
+                except Exception as e:
+                    got = f"<<{type(e).__name__}>>"
+                if not values_equal(got, want):
+                    fails.append({"key": _key("value-all-groupings", ops), "part": "value", "source": src, "inputs": args, "expected": want, "observed": got, "text": ts[0]})
+                    break
+    return evals, nontriv, _cap(fails)
+
+
 TYPED_PATTERNS = [("int2", "int", "int"), ("int", "int2", "int"), ("int2", "int2", "int"), ("int2", "int", "int2"), ("float", "int", "int"), ("int", "float", "int"), ("int", "int", "float"),
                   ("float2", "float", "int"), ("int3", "int", "float")]
 TYPED_VALUES = {"int": [3, 2, -5], "float": [2.5, 0.5, 4.0], "int2": [[7, -9], [4, 5], [2, -3]], "int3": [[7, -9, 4], [1, 2, 3], [5, 5, 5]], "float2": [[1.5, -2.5], [0.5, 4.0], [2.0, 3.0]]}
@@ -456,6 +495,8 @@ def run(tier, seed):
         jobs.append((w_tree, (2, lo, hi, "layout2")))
     for lo, hi in _slices(len(TYPED_PATTERNS) * 25, 45):
         jobs.append((w_typed, (lo, hi)))
+    for lo, hi in _slices(169, 22):
+        jobs.append((w_both, (lo, hi)))
     for o1, o2 in REPRESENTATIVE:
         idx = BINOPS.index(o1) * 13 + BINOPS.index(o2)
         jobs.append((w_tree, (2, idx, idx + 1, "layoutfull")))
